@@ -14,8 +14,10 @@
 //! R's menu (`rec::enumerate_faults`) on the recorded authoritative exchanges of the DO=1 CD=0 honest
 //! request: first the faults on the denial link (drop / alter / replace one NSEC / NSEC3 / SOA record or
 //! its RRSIG, strip RRSIGs, strip the denial, empty the authority section, replay another negative
-//! response, flip the rcode), then a sample of the rest stratified by (kind, link); each with DO=1 CD=0,
-//! some repeated with CD=1 and with DO=0 AD=1 CD=0.
+//! response, flip the rcode) and one compound fault of this point, `forged-unsigned-soa` (the SOA of the
+//! negative answer rewritten in its MINIMUM field, its RRSIGs removed, the NSEC / NSEC3 proof untouched),
+//! then a sample of the rest stratified by (kind, link); each with DO=1 CD=0, some repeated with CD=1 and
+//! with DO=0 AD=1 CD=0.
 //!
 //! Clauses: the server clauses of `server.rs` (`crate::server_wire_alarms`: `ad-not-authentic`,
 //! `served-forged-to-cd0`, `false-denial-served`), `server-panic`, and
@@ -24,12 +26,14 @@
 //!    truly insecure (securely delegated, or bogus by configuration), and either (a) DO=1 and the
 //!    authority section carries no NSEC / NSEC3 record at all (detail `nxdomain-no-proof-records` /
 //!    `nodata-no-proof-records`): a negative answer of a signed zone that neither the server vouches for
-//!    nor the client can check, or (b) the SAME request over the honest network is answered with AD=1
-//!    (detail `nxdomain` / `nodata`): under tampering the denial is handed on unauthenticated, as if the
-//!    zone were unsigned ("SERVFAIL to CD=0 clients, never silently Insecure"). Not raised when
-//!    `false-denial-served` already describes the response. (hickory leaves AD clear on honest negative
-//!    answers whose RRsets carry RRSIGs of two algorithms - it marks the signature it did not need
-//!    Indeterminate -: stricter, not judged; that is why (b) compares with the honest request.)
+//!    nor the client can check, or (b) DO=1, the SAME request over the honest network is answered with
+//!    AD=1, and no record or signature in answer / authority belongs to a truly insecure zone (such a
+//!    record keeps AD clear legitimately) (detail `nxdomain` / `nodata`): under tampering the negative
+//!    answer is handed on unauthenticated, as if the zone were unsigned ("SERVFAIL to CD=0 clients,
+//!    never silently Insecure"). Not raised when `false-denial-served` already describes the response.
+//!    (hickory leaves AD clear on honest negative answers whose RRsets carry RRSIGs of two algorithms -
+//!    it marks the signature it did not need Indeterminate -: stricter, not judged; that is why (b)
+//!    compares with the honest request.)
 //!  * `bogus-zone-data-served`: a CD=0 client gets NOERROR / NXDOMAIN with a genuine answer record of a
 //!    zone that is bogus by configuration (its DS matches none of its keys).
 //! Signature = `detail|<full fault kind>` (`detail|honest`; `detail|multi-fault:<kinds>` when a replayed
@@ -60,7 +64,7 @@ use serde_json::{json, Value};
 use vh::mon::{self, Reporter};
 use vh::prng::{fnv64, Rng};
 
-use crate::fault::Attacker;
+use crate::fault::{Attacker, Fault, Prim};
 use crate::hier::{Status, Truth};
 use crate::rec::{self, RStep, Recorded};
 use crate::refzone::{self, fold, show, ty, Name};
@@ -271,7 +275,9 @@ pub fn judge_case(b: &Bench, st: &RStep, f: Flags, res: &SResult, honest_ad1: bo
                         seen.optout_negative_not_judged = true;
                     } else {
                         let no_proof = f.edns_do && !w.recs.iter().any(|r| r.sec == crate::world::SEC_NS && matches!(r.rtype, crate::chain::T_NSEC | crate::chain::T_NSEC3));
-                        if no_proof || (honest_ad1 && !st.faults.is_empty()) {
+                        // a record (or signature) of a truly insecure zone in answer / authority keeps AD clear legitimately
+                        let ad0_explained = !f.edns_do || w.recs.iter().filter(|r| r.sec != crate::world::SEC_AR).any(|r| t.zones_of_record(&r.owner, r.covered().unwrap_or(r.rtype)).iter().any(|z| t.zones[*z].status == Status::Insecure));
+                        if no_proof || (honest_ad1 && !st.faults.is_empty() && !ad0_explained) {
                             out.push(SAlarm {
                                 rule: "bogus-denial-served",
                                 detail: format!("{}{}", if w.rcode == 3 { "nxdomain" } else { "nodata" }, if no_proof { "-no-proof-records" } else { "" }),
@@ -581,7 +587,23 @@ pub fn workload(rep: &mut Reporter, attacker: &Arc<Attacker>, b: &Bench, hier_js
         let all = rec::enumerate_faults(&mut rng, b, r, &pool, &tops, attacker_tags);
         j.rep.add("rsrv/single_faults_enumerated", all.len() as u64);
         let (denial, other): (Vec<RFault>, Vec<RFault>) = all.into_iter().partition(|f| f.fault.link == "denial");
-        let mut picked = rec::sample_stratified(&mut rng, &denial, p.cap_denial, |f| (f.fault.kind.clone(), f.server.as_ref().map(|s| show(s)).unwrap_or_default()));
+        let mut picked: Vec<RFault> = Vec::new();
+        // the SOA of the negative answer rewritten (lowest bit of MINIMUM, the negative-caching TTL) and left
+        // without signature: whatever the NSEC / NSEC3 proof says, this authority RRset is not authentic
+        if let Some(e) = r.ex.first().filter(|e| e.ex.qname == r.q.qname && e.ex.qtype == r.q.qtype && !e.ex.honest.kind.starts_with("referral") && e.ex.honest.is_negative()) {
+            if let Some((i, soa)) = e.ex.honest.recs.iter().enumerate().find(|(_, x)| x.sec == crate::world::SEC_NS && x.rtype == ty::SOA && x.rdata.len() >= 22) {
+                let mut prims = vec![Prim::new("alter-bit").at(&e.ex.qname, e.ex.qtype).idx(i).n(soa.rdata.len() as u64 * 8 - 1)];
+                for (k, x) in e.ex.honest.recs.iter().enumerate() {
+                    if x.sec == soa.sec && x.covered() == Some(ty::SOA) && fold(&x.owner) == fold(&soa.owner) {
+                        prims.push(Prim::new("drop").at(&e.ex.qname, e.ex.qtype).idx(k));
+                    }
+                }
+                if prims.len() > 1 {
+                    picked.push(RFault::at(&e.server, Fault::new("forged-unsigned-soa", "denial", prims)));
+                }
+            }
+        }
+        picked.extend(rec::sample_stratified(&mut rng, &denial, p.cap_denial, |f| (f.fault.kind.clone(), f.server.as_ref().map(|s| show(s)).unwrap_or_default())));
         picked.extend(rec::sample_stratified(&mut rng, &other, p.cap_other, |f| (rec::kind_base(&f.fault.kind), f.fault.link.clone())));
         for f in &picked {
             let st = RStep { qname: r.q.qname.clone(), qtype: r.q.qtype, do_bit: true, faults: vec![f.clone()] };
